@@ -604,14 +604,22 @@ def c19(ctx):
     rule = ("operation paths exported by TLC from Isolation.tla (DMaps {ab, a} x keys {c, bc}: every distinct state within %d operations) plus seeded random sequences "
             "with Incr, GetPut, Lock/Unlock, Expire and Destroy through an embedded client, a cluster client or raw RESP; clusters N in 1..3, R in 1..2; after every "
             "operation both DMaps are read completely (every key through a random client path, a full scan, every member's primary and backup fragments); "
-            "non-trivial = the sequence touches both DMaps") % (3 if quick else 4)
+            "every third sequence, and every operation sequence up to length %d (all of them, exported with the log in the view, on every cluster shape), runs quietly: only through "
+            "long-lived embedded handles obtained before any Destroy and observed once at its end, white box first, because reads between the operations touch every member; "
+            "non-trivial = the sequence touches both DMaps") % (3 if quick else 4, 2 if quick else 3)
     r = vlib.design_check(ctx, "Isolation", "Isolation.cfg", consts={"Export": "TRUE", "MaxOps": 3 if quick else 4}, name="isolation-design")
     behs = sorted(set(vlib.behaviours(r)))
+    # every operation sequence (not one per abstract state) up to a smaller length: run "quietly" on every cluster shape
+    r2 = vlib.design_check(ctx, "Isolation", "Isolation.cfg", consts={"Export": "TRUE", "AllPaths": "TRUE", "MaxOps": 2 if quick else 3},
+                           name="isolation-allpaths")
+    allp = sorted(set(vlib.behaviours(r2)))
     out = ctx.dir("drv")
     behfile = os.path.join(out, "beh.jsonl")
     open(behfile, "w").write("\n".join(behs) + "\n")
+    allfile = os.path.join(out, "all.jsonl")
+    open(allfile, "w").write("\n".join(allp) + "\n")
     return det_run(ctx, "reg", "TestC19", "c19.ndjson", "c19.summary.json", "IsolationTrace", "IsolationTrace.cfg",
-                   {"VERIF_BEH": behfile, "VERIF_C19_RANDOM": 30 if quick else 800, "VERIF_OUT": out}, [], rule, "DMap isolation and Destroy",
+                   {"VERIF_BEH": behfile, "VERIF_BEH_ALL": allfile, "VERIF_C19_RANDOM": 30 if quick else 800, "VERIF_OUT": out}, [], rule, "DMap isolation and Destroy",
                    tags_of=lambda head, evs, line, msg: {"msg": msg})
 
 
